@@ -239,7 +239,7 @@ func Spec() *core.Spec {
 		Assumptions: []string{"operation/object/attribute type tables in harness/gen/ops.go are written from the KMIP 1.4 specification"},
 		Required:    []string{"typed_payloads", "opaque_payloads", "objects_typed", "objects_unknown_rejected", "attrs_typed", "attrs_wrong_type_rejected", "attrs_opaque", "late_registration_decodes", "late_registration_named_decodes", "concurrent_opaque_decodes"},
 		Families: []core.Family{
-			{Name: "ops-typed", N: nOf(27*2*3*5*3, 27*2*3*5*120), Run: func(c *core.Ctx, r *core.Rand, i int) {
+			{Name: "ops-typed", N: nOf(27*2*3*5*3, 27*2*3*5*600), Run: func(c *core.Ctx, r *core.Rand, i int) {
 				op := &gen.Ops[i%27]
 				resp := (i/27)%2 == 1
 				enc := encs[(i/54)%3]
@@ -291,7 +291,7 @@ func Spec() *core.Spec {
 					c.Count("typed_payloads", 1)
 				}
 			}},
-			{Name: "ops-opaque", N: nOf(30*2*3+400*2*3, 30*2*3+40000*2*3), Run: func(c *core.Ctx, r *core.Rand, i int) {
+			{Name: "ops-opaque", N: nOf(30*2*3+400*2*3, 30*2*3+200000*2*3), Run: func(c *core.Ctx, r *core.Rand, i int) {
 				resp := i%2 == 1
 				enc := encs[(i/2)%3]
 				code := opCodes(r, i/6)
@@ -359,10 +359,10 @@ func Spec() *core.Spec {
 				}
 				c.Count("opaque_payloads", 1)
 			}},
-			{Name: "objects", N: nOf(9*4*3*4+60*3, 9*4*3*400+60*3*20), Run: func(c *core.Ctx, r *core.Rand, i int) {
+			{Name: "objects", N: nOf(9*4*3*4+60*3, 9*4*3*2000+60*3*100), Run: func(c *core.Ctx, r *core.Rand, i int) {
 				objectsCase(c, r, i, mode)
 			}},
-			{Name: "concurrent-opaque", N: nOf(40, 4000), Run: concurrentOpaque},
+			{Name: "concurrent-opaque", N: nOf(40, 12000), Run: concurrentOpaque},
 			{Name: "late-registration", Isolated: true, Exhaustive: true, N: func(string) int { return 2 }, Run: lateRegistration},
 			{Name: "attrs-std", Exhaustive: true, N: func(tier string) int { return 50 * 10 * 3 }, Run: func(c *core.Ctx, r *core.Rand, i int) {
 				at := gen.AttrTypes[i%50]
@@ -426,7 +426,7 @@ func Spec() *core.Spec {
 				}
 				c.Count("attrs_wrong_type_rejected", 1)
 			}},
-			{Name: "attrs-custom", N: nOf(12*10*3*2, 12*10*3*200), Run: func(c *core.Ctx, r *core.Rand, i int) {
+			{Name: "attrs-custom", N: nOf(12*10*3*2, 12*10*3*1000), Run: func(c *core.Ctx, r *core.Rand, i int) {
 				names := []string{"x-custom", "y-custom", "x-", "y-", "x-Unique Identifier", "Vendor Attribute", "unique identifier", "Unique Identifier ", "Name2", "z-custom", "", "State "}
 				name := names[i%12]
 				wt := ttlvTypes[(i/12)%10]
